@@ -1,6 +1,6 @@
 #!/bin/sh
 # tools/apply_fix.sh <diff> "<subject>" <pytest args...> : apply one repair to /repo, run the given tests
-# (failures that already fail on the clean tree - /var/tmp/clean_failed.txt - are ignored), commit.
+# (failures that already fail on the clean tree - /verif/tools/clean_failed.txt - are ignored), commit.
 set -e
 diff="$1"; subj="$2"; shift 2
 cd /repo
@@ -8,7 +8,7 @@ git apply --check "$diff"
 git apply "$diff"
 /venv/bin/python -m pytest -q -p no:cacheprovider -rfE "$@" > /var/tmp/applyfix.log 2>&1 || true
 grep -E "^(FAILED|ERROR)" /var/tmp/applyfix.log | sed 's/ - .*//' | sort > /var/tmp/applyfix.failed
-new=$(comm -23 /var/tmp/applyfix.failed /var/tmp/clean_failed.txt)
+new=$(comm -23 /var/tmp/applyfix.failed /verif/tools/clean_failed.txt)
 tail -1 /var/tmp/applyfix.log
 if [ -n "$new" ]; then echo "NEW FAILURES:"; echo "$new"; echo "reverting"; git checkout -- .; exit 1; fi
 git commit -qam "$subj"
